@@ -279,7 +279,20 @@ def apply_fault(ctx, tok, fault, alg, kind, enc, form, aad, stride=1, tag=""):
         tok.force_ek = ctx.choose(tag + "member", ["absent", "empty-string"]) == "empty-string"
         return "encrypted key removed/emptied for a key-wrapping algorithm", over
     if fault == "wrong-recipient-key":
-        which = ctx.choose(tag + "wrong_key", ["another key", "the password in another Unicode normal form"] if alg.startswith("PBES2") else ["another key"])
+        RESIZED = {"the right secret with octets appended": lambda raw: raw + b"\x5a" * 16, "the right secret with octets in front": lambda raw: b"\x5a" * 16 + raw,
+                   "the right secret without its last octet": lambda raw: raw[:-1]}
+        which = ctx.choose(tag + "wrong_key", ["another key"] + (["the password in another Unicode normal form"] if alg.startswith("PBES2") else []) + (list(RESIZED) if kind.startswith("oct") else []))
+        if which in RESIZED:
+            # a key that shares its leading / trailing octets with the recipient's but is not that key (other k, other thumbprint)
+            from joserfc.jwk import KeySet
+
+            def resized(jwk):
+                return {**jwk, "k": b64.enc(RESIZED[which](b64.dec(jwk["k"])))}
+            if form == "general":
+                over["key"] = KeySet([A.jkey({**resized(scen.key(kind, 2 * i)), "kid": f"rcpt-{i}"}, "dict") for i in range(2)])
+            else:
+                over["key"] = A.jkey(resized(scen.key(kind, 0)), "dict")
+            return f"{which}", over
         if which != "another key":
             # the recipient's secret is a pass-phrase (precomposed text); the key presented spells the same text with other octets
             import unicodedata
